@@ -250,6 +250,11 @@ def degenerate_boxes(prog, chk):
             subject(rv["a"], rv["b"])
     chk.floor("A7.degenerate-box", n[0], 2, "comparison of an intersection's width()/height() with 0")
     ok = bool(somes) and R.may_reach(b, somes, R.equality_assumption(b, subject))
+    if not somes and b.call_sites(lambda c: c.path.split("::")[-1] in ("then_some", "then", "filter")):
+        # the Some / None decision is made by a combinator (`cond.then_some(box)`), not by a branch: no verdict here
+        # (the value is still compared by A17.algebra BoundingBox::intersect)
+        chk.undecided("A7.degenerate-box", "intersect", b.where(), "BoundingBox::intersect decides Some / None with a combinator rather than a branch on its size tests")
+        return
     chk.ob(ok, "A7.degenerate-box", "intersect", b.where(), "an intersection of zero width or height is still returned as a box (both size tests admit equality)", "BoundingBox::intersect returns None for a zero-width or zero-height intersection: a clipped horizontal/vertical line (or text anchor) stops contributing to the root extent")
 
 
